@@ -42,12 +42,13 @@ type PExpr struct {
 
 // PCond is a condition.
 type PCond struct {
-	K  string `json:"k"` // true false cmp range isnull
-	Op string `json:"op,omitempty"`
-	A  *PExpr `json:"a,omitempty"`
-	B  *PExpr `json:"b,omitempty"`
-	Lo int64  `json:"lo,omitempty"`
-	Hi int64  `json:"hi,omitempty"`
+	K    string `json:"k"`              // true false cmp range isnull curopen curinrange
+	Name string `json:"name,omitempty"` // cursor of curopen / curinrange
+	Op   string `json:"op,omitempty"`
+	A    *PExpr `json:"a,omitempty"`
+	B    *PExpr `json:"b,omitempty"`
+	Lo   int64  `json:"lo,omitempty"`
+	Hi   int64  `json:"hi,omitempty"`
 }
 
 // PStmt is a statement.
@@ -66,6 +67,9 @@ type PCond struct {
 //	insert    INSERT INTO Name VALUES (E)
 //	cursor    DECLARE Name CURSOR FOR <Rows literal | SELECT v FROM Table ORDER BY v NULLS FIRST>
 //	open close
+//	fetch     FETCH [Pos [N]] Name INTO @Var[, @Var2]   (Pos: NEXT PRIOR FIRST LAST ABSOLUTE RELATIVE)
+//	dispose   DISPOSE CURSOR Name
+//	printrange PRINT CURSOR Name IS IN RANGE
 type PStmt struct {
 	ID      int       `json:"id"`
 	K       string    `json:"k"`
@@ -84,6 +88,9 @@ type PStmt struct {
 	Decl    string    `json:"decl,omitempty"`
 	Rows    []int64   `json:"rows,omitempty"`
 	Table   string    `json:"table,omitempty"`
+	Pos     string    `json:"pos,omitempty"`
+	N       int64     `json:"n,omitempty"`
+	Var2    string    `json:"var2,omitempty"`
 }
 
 // ---------------------------------------------------------------------
@@ -130,6 +137,10 @@ func RenderPCond(c *PCond) string {
 		return fmt.Sprintf("%s >= %d AND %s <= %d", a, c.Lo, a, c.Hi)
 	case "isnull":
 		return RenderPExpr(c.A) + " IS NULL"
+	case "curopen":
+		return "CURSOR " + c.Name + " IS OPEN"
+	case "curinrange":
+		return "CURSOR " + c.Name + " IS IN RANGE"
 	}
 	return "?" + c.K
 }
@@ -260,6 +271,23 @@ func renderStmt(b *strings.Builder, s *PStmt, ind int) {
 		line("OPEN %s;", s.Name)
 	case "close":
 		line("CLOSE %s;", s.Name)
+	case "dispose":
+		line("DISPOSE CURSOR %s;", s.Name)
+	case "printrange":
+		line("PRINT CURSOR %s IS IN RANGE;", s.Name)
+	case "fetch":
+		pos := ""
+		switch s.Pos {
+		case "NEXT", "PRIOR", "FIRST", "LAST":
+			pos = s.Pos + " "
+		case "ABSOLUTE", "RELATIVE":
+			pos = s.Pos + " " + RenderPExpr(&PExpr{K: "lit", N: s.N}) + " "
+		}
+		vars := "@" + s.Var
+		if s.Var2 != "" {
+			vars += ", @" + s.Var2
+		}
+		line("FETCH %s%s INTO %s;", pos, s.Name, vars)
 	default:
 		line("-- ?%s", s.K)
 	}
@@ -293,6 +321,7 @@ const (
 	PErrRedeclCur   = "redeclared_cursor"
 	PErrCurClosed   = "cursor_closed"
 	PErrCurOpen     = "cursor_open"
+	PErrFetchLength = "fetch_length"
 	PErrUndeclTable = "undeclared_table"
 	PErrRedeclTable = "redeclared_table"
 )
@@ -302,22 +331,25 @@ type pErr struct {
 	discard bool // not an error of the program: the outcome is outside the model
 }
 
-func perr(class string) *pErr     { return &pErr{class: class} }
+func perr(class string) *pErr      { return &pErr{class: class} }
 func pdiscard(reason string) *pErr { return &pErr{class: reason, discard: true} }
 
 // ---------------------------------------------------------------------
 // environment
 
 type pObj struct {
-	kind  byte // v c t f
-	name  string
-	frame *pFrame
-	val   PVal   // v
-	rows  []PVal // t
-	decl  *PStmt // c, f
-	open  bool   // c
-	view  []PVal // c: snapshot taken at OPEN
-	idx   int    // c
+	kind    byte // v c t f
+	name    string
+	frame   *pFrame
+	val     PVal   // v
+	rows    []PVal // t
+	decl    *PStmt // c, f
+	open    bool   // c
+	view    []PVal // c: snapshot taken at OPEN
+	idx     int    // c
+	fetched bool   // c: a FETCH happened since OPEN
+	fuzzy   bool   // c: the pointer was sent beyond [-1, len]; where it rests is not documented
+	tainted bool   // v: target of a fetch that found no record (NULL by the manual, unchanged in csvq)
 	// an inner declaration of the same name shadowed this object and the
 	// shadowing block has ended since
 	released bool
@@ -527,6 +559,9 @@ func (in *interp) eval(e *PExpr, f *pFrame) (PVal, *pErr) {
 		if o == nil {
 			return pNull, perr(PErrUndeclVar)
 		}
+		if o.tainted {
+			return pNull, pdiscard("value_after_fetch_without_record")
+		}
 		return o.val, nil
 	case "bin":
 		return in.evalPair(e.A, e.B, f, func(a, b PVal) PVal {
@@ -709,8 +744,37 @@ func (in *interp) evalCond(c *PCond, f *pFrame) (int, *pErr) {
 			return T, nil
 		}
 		return F, nil
+	case "curopen", "curinrange":
+		o, d := in.lookup('c', c.Name, f)
+		if d != nil {
+			return U, d
+		}
+		if o == nil {
+			return U, perr(PErrUndeclCur)
+		}
+		if c.K == "curopen" {
+			if o.open {
+				return T, nil
+			}
+			return F, nil
+		}
+		return in.inRange(o)
 	}
 	return U, pdiscard("unknown_cond_" + c.K)
+}
+
+// inRange: CURSOR c IS IN RANGE.
+func (in *interp) inRange(o *pObj) (int, *pErr) {
+	if !o.open {
+		return U, perr(PErrCurClosed)
+	}
+	if !o.fetched {
+		return U, nil
+	}
+	if o.idx >= 0 && o.idx < len(o.view) {
+		return T, nil
+	}
+	return F, nil
 }
 
 func (in *interp) invoke(fo *pObj, arg PVal, caller *pFrame) (PVal, *pErr) {
@@ -817,7 +881,7 @@ func (in *interp) execStmt(s *PStmt, f *pFrame) (pFlow, *pErr) {
 			}
 			return fNone, perr(PErrUndeclVar)
 		}
-		o.val = v
+		o.val, o.tainted = v, false
 		return fNone, nil
 	case "print":
 		v, err := in.eval(s.E, f)
@@ -934,7 +998,12 @@ func (in *interp) execStmt(s *PStmt, f *pFrame) (pFlow, *pErr) {
 				}
 				return fNone, cerr
 			}
+			if cur.fuzzy {
+				in.popFrame(child)
+				return fNone, pdiscard("relative_fetch_after_far_out_of_range")
+			}
 			cur.idx++
+			cur.fetched = true
 			if cur.idx >= len(cur.view) {
 				cur.idx = len(cur.view)
 				in.popFrame(child)
@@ -948,7 +1017,7 @@ func (in *interp) execStmt(s *PStmt, f *pFrame) (pFlow, *pErr) {
 				in.popFrame(child)
 				return fNone, perr(PErrUndeclVar)
 			}
-			target.val = cur.view[cur.idx]
+			target.val, target.tainted = cur.view[cur.idx], false
 			in.st.LoopIters++
 			flow, err := in.execBlock(s.Body, child)
 			in.popFrame(child)
@@ -1056,7 +1125,7 @@ func (in *interp) execStmt(s *PStmt, f *pFrame) (pFlow, *pErr) {
 				view = append(view, PVal{N: r})
 			}
 		}
-		o.open, o.view, o.idx = true, view, -1
+		o.open, o.view, o.idx, o.fetched, o.fuzzy = true, view, -1, false, false
 		return fNone, nil
 	case "close":
 		o, d := in.lookup('c', s.Name, f)
@@ -1069,7 +1138,118 @@ func (in *interp) execStmt(s *PStmt, f *pFrame) (pFlow, *pErr) {
 		if !o.open {
 			return fNone, pdiscard("close_of_closed_cursor")
 		}
-		o.open, o.view, o.idx = false, nil, 0
+		o.open, o.view, o.idx, o.fetched, o.fuzzy = false, nil, 0, false, false
+		return fNone, nil
+	case "dispose":
+		o, d := in.lookup('c', s.Name, f)
+		if d != nil {
+			return fNone, d
+		}
+		if o == nil {
+			return fNone, perr(PErrUndeclCur)
+		}
+		delete(o.frame.objs, key('c', s.Name))
+		return fNone, nil
+	case "printrange":
+		o, d := in.lookup('c', s.Name, f)
+		if d != nil {
+			return fNone, d
+		}
+		if o == nil {
+			return fNone, perr(PErrUndeclCur)
+		}
+		t, err := in.inRange(o)
+		if err != nil {
+			return fNone, err
+		}
+		in.out = append(in.out, TernName(t))
+		return fNone, nil
+	case "fetch":
+		cur, d := in.lookup('c', s.Name, f)
+		if d != nil {
+			return fNone, d
+		}
+		names := []string{s.Var}
+		if s.Var2 != "" {
+			names = append(names, s.Var2)
+		}
+		targets := make([]*pObj, len(names))
+		missing := false
+		for i, n := range names {
+			t, d := in.lookup('v', n, f)
+			if d != nil {
+				return fNone, d
+			}
+			targets[i] = t
+			if t == nil {
+				missing = true
+			}
+		}
+		var cerr *pErr
+		if cur == nil {
+			cerr = perr(PErrUndeclCur)
+		} else if !cur.open {
+			cerr = perr(PErrCurClosed)
+		}
+		if cerr != nil {
+			if missing {
+				return fNone, pdiscard("two_errors_in_fetch")
+			}
+			return fNone, cerr
+		}
+		n := len(cur.view)
+		idx := cur.idx
+		switch s.Pos {
+		case "", "NEXT", "PRIOR", "RELATIVE":
+			if cur.fuzzy {
+				return fNone, pdiscard("relative_fetch_after_far_out_of_range")
+			}
+			switch s.Pos {
+			case "PRIOR":
+				idx--
+			case "RELATIVE":
+				idx += int(s.N)
+			default:
+				idx++
+			}
+		case "FIRST":
+			idx = 0
+		case "LAST":
+			idx = n - 1
+		case "ABSOLUTE":
+			idx = int(s.N)
+		default:
+			return fNone, pdiscard("unknown_fetch_position")
+		}
+		cur.fetched = true
+		cur.fuzzy = idx < -1 || idx > n
+		if idx < 0 {
+			idx = -1
+		}
+		if idx > n {
+			idx = n
+		}
+		cur.idx = idx
+		if idx < 0 || idx >= n {
+			// no record: NULLs by the manual, variables untouched in csvq -> their value is not predicted
+			if missing {
+				return fNone, pdiscard("undeclared_fetch_target_without_row")
+			}
+			for _, t := range targets {
+				t.tainted = true
+			}
+			return fNone, nil
+		}
+		if len(targets) != 1 {
+			if missing {
+				return fNone, pdiscard("two_errors_in_fetch")
+			}
+			return fNone, perr(PErrFetchLength)
+		}
+		if missing {
+			return fNone, perr(PErrUndeclVar)
+		}
+		targets[0].val, targets[0].tainted = cur.view[idx], false
 		return fNone, nil
 	}
 	return fNone, pdiscard("unknown_stmt_" + s.K)
